@@ -12,6 +12,9 @@
 package buffer
 
 //@ ghost recvs(ref) int
+// The task's goroutine writes task.err and then closes the channel; what
+// task.err held before the receive says nothing about what it holds after.
+//@ recvhavoc backgroundTask.completion err
 //@ ufunc dgValid(str) bool
 //@ axiom !dgValid("")
 
@@ -58,9 +61,18 @@ package buffer
 //@ func (*casBufferWithBackgroundTask).ToByteSlice
 //@   requires bgWF(b)
 //@   ensures [waits-for-the-task] recvs(b.task.completion) == old(recvs(b.task.completion)) + 1
+//@   ensures [success-only-if-the-task-succeeded] result1 == nil ==> b.task.err == nil
 //@ func (*casBufferWithBackgroundTask).Discard
 //@   requires bgWF(b)
 //@   ensures [waits-for-the-task] recvs(b.task.completion) == old(recvs(b.task.completion)) + 1
+
+// The chunked stream ends (io.EOF) only after the task has been waited for,
+// and then reports the error the task ended with — read AFTER the wait.
+//@ func (*chunkReaderWithBackgroundTask).Read
+//@   requires r.task != nil && r.task.completion != nil
+//@   ensures [task-error-read-after-the-wait] result1 == io.EOF ==> r.r == nil && (r.task.err == nil || r.task.err == io.EOF)
+//@   ensures [task-failure-reported-at-end] r.r == nil && r.task.err != nil ==> result1 == r.task.err
+//@   ensures [waits-at-end-of-stream] old(r.r) != nil && r.r == nil ==> recvs(r.task.completion) == old(recvs(r.task.completion)) + 1
 
 // Streams: closing waits for the task exactly once.
 //@ func (*readerWithBackgroundTask).Close
